@@ -40,6 +40,8 @@ def check(run, prog, tier):
     run.rule("C06-R3", "spectral densities are odd in frequency (parity types)", minimum=5)
     run.rule("C06-R4", "thermal factor is 1 + coth(w/2kT); zero-frequency limit", minimum=4)
     run.rule("C06-R5", "tensor population block uses the same operators and frequency as the rate kernel", minimum=3)
+    run.rule("C06-R7", "Foerster rate K[a<-b]: donor arguments carry the donor index b, acceptor arguments the "
+                       "acceptor index a (role binding through the integral's parameters)", minimum=2)
     run.rule("C06-R6", "rate and tensor kernels work on their own copies of the system-bath operators "
                        "(effect analysis with field aliases)", minimum=3)
     rule_R1(run, prog)
@@ -48,6 +50,7 @@ def check(run, prog, tier):
     rule_R4(run, prog)
     rule_R5(run, prog)
     rule_R6(run, prog)
+    rule_R7(run, prog)
 
 
 def rule_R1(run, prog):
@@ -445,6 +448,101 @@ def _temperature_flow(run, rid, prog):
                                    "temperature (%s)" % badp, loc=f.loc(), sample={"appended": len(tf.appended)})
 
 
+def rule_R7(run, prog):
+    """Detailed balance of Foerster rates with respect to the relaxed site energies E_n - lambda_n rests
+    on the integrand exp(-g_d - g_a + i((E_d - E_a) - 2 lambda_d) t): the Stokes shift is the donor's.
+    For every store K[a, b] = |J_ab|^2 * integral(...), the argument bound to the integral's parameter
+    for the donor energy and the one for the donor reorganisation energy must be indexed by b (the
+    column = the state the population leaves), the acceptor energy by a; the two line-shape
+    functions must be those of a and b (their order is immaterial when the integral uses only their sum)."""
+    rid = "C06-R7"
+    sites = [("quantarhei.qm.liouvillespace.rates.foersterrates._reference_implementation",
+              "quantarhei.qm.liouvillespace.rates.foersterrates._fintegral"),
+             ("quantarhei.qm.liouvillespace.tdfoerstertensor._td_reference_implementation",
+              "quantarhei.qm.liouvillespace.tdfoerstertensor._td_fintegral")]
+    for fq, iq in sites:
+        f, ig = prog.func(fq), prog.func(iq)
+        prog.consulted.add(f.relpath)
+        ipar = [a.arg for a in ig.node.args.args]
+        role = {"donor_energy": None, "acceptor_energy": None, "donor_reorg": None, "g": []}
+        # roles are read off the integrand: exp(-gX - gY + 1j*((D - A) - 2*L)*t)
+        prod = [n for n in ast.walk(ig.node) if isinstance(n, ast.Assign) and isinstance(n.value, ast.Call)
+                and call_name(n.value) == "exp"]
+        if len(prod) != 1:
+            raise AnalysisError("%s: integrand not found" % ig.short)
+        def terms(e, sign=1):
+            """additive terms of an expression as (sign, node)"""
+            if isinstance(e, ast.BinOp) and isinstance(e.op, ast.Add):
+                return terms(e.left, sign) + terms(e.right, sign)
+            if isinstance(e, ast.BinOp) and isinstance(e.op, ast.Sub):
+                return terms(e.left, sign) + terms(e.right, -sign)
+            if isinstance(e, ast.UnaryOp) and isinstance(e.op, ast.USub):
+                return terms(e.operand, -sign)
+            return [(sign, e)]
+        top = terms(prod[0].value.args[0])
+        gs = [t_.id for sg, t_ in top if sg == -1 and isinstance(t_, ast.Name)]
+        phase = [t_ for sg, t_ in top if sg == 1 and isinstance(t_, ast.BinOp) and isinstance(t_.op, ast.Mult)]
+        if len(gs) != 2 or len(phase) != 1:
+            raise AnalysisError("%s: integrand outside the recognised form: %s" % (ig.short, norm(prod[0].value.args[0])))
+        # 1j * (energy expression) * t : pick the factor that is a sum
+        def factors(e):
+            if isinstance(e, ast.BinOp) and isinstance(e.op, ast.Mult):
+                return factors(e.left) + factors(e.right)
+            return [e]
+        en = [x for x in factors(phase[0]) if isinstance(x, ast.BinOp) and isinstance(x.op, (ast.Add, ast.Sub))]
+        if len(en) != 1:
+            raise AnalysisError("%s: energy gap of the integrand not found" % ig.short)
+        et = terms(en[0])
+        pos = [t_.id for sg, t_ in et if sg == 1 and isinstance(t_, ast.Name)]
+        neg = [t_.id for sg, t_ in et if sg == -1 and isinstance(t_, ast.Name)]
+        shift = [x.id for sg, t_ in et if sg == -1 and isinstance(t_, ast.BinOp) and isinstance(t_.op, ast.Mult)
+                 for x in factors(t_) if isinstance(x, ast.Name)]
+        if len(pos) != 1 or len(neg) != 1 or len(shift) != 1:
+            raise AnalysisError("%s: energy gap is not (E_d - E_a) - 2 lambda_d: %s" % (ig.short, norm(en[0])))
+        role["g"] = gs
+        role["donor_energy"], role["acceptor_energy"], role["donor_reorg"] = pos[0], neg[0], shift[0]
+        stores = [n for n in ast.walk(f.node) if isinstance(n, ast.Assign) and isinstance(n.targets[0], ast.Subscript)
+                  and any(isinstance(c, ast.Call) for c in ast.walk(n.value))
+                  and isinstance(n.targets[0].slice, ast.Tuple) and len(n.targets[0].slice.elts) >= 2]
+        stores = [n for n in stores if any(isinstance(c, ast.Call) and len(c.args) == len(ipar) for c in ast.walk(n.value))]
+        if len(stores) != 1:
+            raise AnalysisError("%s: rate store not found (%d candidates)" % (f.short, len(stores)))
+        st = stores[0]
+        idx = [norm(e) for e in st.targets[0].slice.elts if not isinstance(e, ast.Slice)]
+        acc, don = idx[-2], idx[-1]
+        call = [c for c in ast.walk(st.value) if isinstance(c, ast.Call) and len(c.args) == len(ipar)][0]
+        bound = dict(zip(ipar, call.args))
+
+        def index_of(e):
+            """state index an argument is taken at: X[i,i], X[i], X[i,:] directly or through one local"""
+            if isinstance(e, ast.Name):
+                b_ = [n for n in ast.walk(f.node) if isinstance(n, ast.Assign)
+                      and any(isinstance(t_, ast.Name) and t_.id == e.id for t_ in n.targets)]
+                if len(b_) == 1:
+                    return index_of(b_[0].value)
+                return None
+            if isinstance(e, ast.Subscript):
+                sl = e.slice.elts if isinstance(e.slice, ast.Tuple) else [e.slice]
+                names = [norm(x) for x in sl if not isinstance(x, ast.Slice)]
+                return names[0] if names and len(set(names)) == 1 else None
+            return None
+        got = {k: index_of(bound[role[k]]) for k in ("donor_energy", "acceptor_energy", "donor_reorg")}
+        gi = sorted(str(index_of(bound[g])) for g in role["g"])
+        problems = []
+        if got["donor_energy"] != don:
+            problems.append("the donor energy is taken at %s" % got["donor_energy"])
+        if got["acceptor_energy"] != acc:
+            problems.append("the acceptor energy is taken at %s" % got["acceptor_energy"])
+        if got["donor_reorg"] != don:
+            problems.append("the donor reorganisation energy (Stokes shift) is taken at %s" % got["donor_reorg"])
+        if gi != sorted([acc, don]):
+            problems.append("the line-shape functions are taken at %s" % gi)
+        run.obligation(rid, f.short, not problems, key="roles",
+                       message="rate K[%s <- %s]: %s (donor = %s, acceptor = %s)" % (acc, don, "; ".join(problems), don, acc),
+                       loc=f.loc(st), sample={"store": norm(st.targets[0]), "donor": don, "acceptor": acc,
+                                              "bound": {k: norm(v) for k, v in bound.items()}})
+
+
 def rule_R6(run, prog):
     """The golden-rule clause is about the coefficients c_na of the eigenstates on the sites: the kernels
     obtain them by transforming the site projectors sbi.KK to the eigenbasis.  If that transformation is
@@ -521,6 +619,11 @@ def rule_R5(run, prog):
     names = RR.template.names()
     kn = [n for n in names if n.split("~")[0] == "Km"]
     ln = [n for n in names if n.split("~")[0] == "Lm"]
+    if not kn and not ln and len(names) == 2:
+        # both operator sets are opaque elements of the interpreted code: K_m is the system part of
+        # the interaction transformed to the eigenbasis, Lambda_m the element accumulated from it
+        kn = [n for n in names if "sbi.KK" in n]
+        ln = [n for n in names if n not in kn]
     if len(kn) != 1 or len(ln) != 1:
         raise AnalysisError("Redfield tensor: K/Lambda sources not identified: %s" % sorted(names))
     K, L = kn[0], ln[0]
@@ -544,3 +647,33 @@ def rule_R5(run, prog):
     run.obligation(rid, "RedfieldRelaxationTensor._implementation", ok, key="same-frequencies",
                    message="the tensor must use the same transition frequencies Om[a,b] = E_a - E_b as the rate matrix",
                    loc=h.loc())
+    # the Lambda operators are filled for every system: a condition that skips the only fill without an
+    # alternative (or a refusal) hands out an all-zero tensor - no rates at all - without any message
+    for q in ("redfieldtensor.RedfieldRelaxationTensor", "tdredfieldtensor.TDRedfieldRelaxationTensor"):
+        hf = prog.func(tensors.LS + q + "._implementation")
+        from ..loader import parents_map
+        pm = parents_map(hf.node)
+        fills = [c for c in ast.walk(hf.node) if isinstance(c, ast.Call) and any(isinstance(a, ast.Name) and a.id == "Lm"
+                                                                                 for a in c.args)
+                 and isinstance(c.func, ast.Attribute) and c.func.attr.startswith("_guts")]
+        fills += [n for n in ast.walk(hf.node) if isinstance(n, (ast.Assign, ast.AugAssign))
+                  and isinstance((n.targets[0] if isinstance(n, ast.Assign) else n.target), ast.Subscript)
+                  and norm((n.targets[0] if isinstance(n, ast.Assign) else n.target).value) == "Lm"]
+        if not fills:
+            raise AnalysisError("%s._implementation: no statement fills the Lambda operators" % q)
+        skipping = []
+        for c in fills:
+            node = c
+            while node in pm and pm[node] is not hf.node:
+                par = pm[node]
+                if isinstance(par, ast.If) and not (isinstance(par.test, ast.Constant) and par.test.value) and \
+                        any(node is x or any(node is y for y in ast.walk(x)) for x in par.body):
+                    alt_ok = any(isinstance(x, ast.Raise) for st_ in par.orelse for x in ast.walk(st_)) or \
+                        any(f2 is not c and any(f2 is y for st_ in par.orelse for y in ast.walk(st_)) for f2 in fills)
+                    if not alt_ok:
+                        skipping.append(norm(par.test))
+                node = par
+        run.obligation(rid, q.split(".")[1] + "._implementation", not skipping, key="lambda-filled-for-every-system",
+                       message="the Lambda operators are only computed when %s; otherwise nothing fills them and nothing "
+                               "is raised: the tensor is identically zero (no relaxation, silently)" % sorted(set(skipping)),
+                       loc=hf.loc(fills[0]), sample={"fills": len(fills), "guards": sorted(set(skipping))})
